@@ -67,12 +67,21 @@ func c01RunReplica(r *simrt.Run, policy int, seed uint64, main bool) (tr *c01Tra
 		}
 		tr.final = func() { add("final") }
 		lastEpoch := uint64(0)
+		txs := 0
 		w.AfterTx = append(w.AfterTx, func(w *World, tx *TxResult) {
 			out := "ok"
 			if tx.Err != nil {
 				out = "rejected"
 			}
-			add(fmt.Sprintf("h=%d tx %s %s", w.Height(), tx.Name, out))
+			// the outcome of every transaction is compared; the (expensive) state digest only after
+			// every 4th one: a diverged state stays diverged, so sampling costs localisation, not detection
+			txs++
+			if txs%4 == 0 {
+				add(fmt.Sprintf("h=%d tx %s %s", w.Height(), tx.Name, out))
+			} else {
+				tr.points = append(tr.points, c01Point{fmt.Sprintf("h=%d tx %s %s", w.Height(), tx.Name, out), ""})
+				tr.sites = append(tr.sites, "")
+			}
 		})
 		blocks := 0
 		w.AfterBlock = append(w.AfterBlock, func(w *World) {
